@@ -252,7 +252,7 @@ def answer? (ctx : Ctx) (H : Hashes) (_stone6 : Bool) (toks : List String) : Opt
     let (L, _) ← ctx.lay? H layout
     let p ← parseProof? rest
     pure (out (fun ((a, b) : Felt × Felt) => s!"{hx a} {hx b}") (Stark.verify L H _stone6 p (← felt? sec)))
-  | ["check_asserts", dps, t] => do
+  | ["check_asserts", "dynamic", dps, t] => do
     -- the translated `check_asserts` alone: `check_asserts <dynamic params> <trace_length>`
     let D ← ctx.dyn
     pure (out unit (DynAsserts.check D.usizeMax (← nats? dps).toArray (← felt? t) D.asserts))
